@@ -23,40 +23,106 @@ theorem fdiv_natCast (a b : Nat) : Int.fdiv (a : Int) (b : Int) = ((a / b : Nat)
   rw [Int.fdiv_eq_ediv_of_nonneg _ (Int.natCast_nonneg b)]
   exact (Int.natCast_ediv a b).symm
 
+theorem floordiv_nat (a b : Nat) (hb : b ≠ 0) : PyVal.floordiv (.int a) (.int b) = .ok (.int ((a / b : Nat) : Int)) := by
+  simp [PyVal.floordiv, PyVal.asInt?, fdiv_natCast, pure, Except.pure, hb]
+
+theorem pyEq_nat (a b : Nat) : PyVal.pyEq (.int (a : Int)) (.int (b : Int)) = decide (a = b) := by
+  simp only [PyVal.pyEq, PyVal.asInt?]
+  by_cases h : a = b
+  · subst h; simp
+  · have : ¬ ((a : Int) = (b : Int)) := by omega
+    simp [h, this]
+
+/-- the `0 < precision < 6` branch for a rounding unit `r` -/
+theorem mid (us r : Nat) (hr : r ≠ 0) :
+    (match (PyVal.int us).floordiv (PyVal.int r) with
+     | Except.error err => Except.error err
+     | Except.ok v_1 =>
+       match v_1.mul (PyVal.int r) with
+       | Except.error err => Except.error err
+       | Except.ok v => if v.pyEq (PyVal.int ↑us) = false then Except.ok v else Except.ok PyVal.none)
+    = (Except.ok (encOpt (if us / r * r = us then none else some (us / r * r))) : PyM PyVal) := by
+  rw [floordiv_nat us r hr]
+  simp only [PyVal.mul_int]
+  rw [show ((us / r : Nat) : Int) * (r : Int) = ((us / r * r : Nat) : Int) by simp, pyEq_nat]
+  by_cases h : us / r * r = us <;> simp [h, encOpt]
+
 /-- **bridge**: the definition regenerated from `ConverterWithMicroseconds.round_microseconds_to_precision` computes the
-    typed mirror, for all microsecond values and all precisions 0..6 -/
+    typed mirror `roundMicrosT`, for all microsecond values and all precisions 0..6 -/
 theorem C07_bridge_roundMicroseconds (us p : Nat) (hp : p ≤ 6) :
     roundMicroseconds (.int us) (.int p) = .ok (encOpt (roundMicrosT us p)) := by
-  unfold roundMicroseconds roundMicrosT
-  by_cases h0 : p = 0
-  · subst h0
-    by_cases hu : us = 0
-    · subst hu; simp [encOpt, bind, Except.bind, pure, Except.pure]
+  rcases p with _ | _ | _ | _ | _ | _ | _ | p
+  case succ.succ.succ.succ.succ.succ.succ => omega
+  case zero =>
+    simp only [roundMicroseconds, roundMicrosT, bind, Except.bind, pure, Except.pure]
+    by_cases h : us = 0
+    · subst h; simp [encOpt]
     · have : ¬ (0 : Int) = (us : Int) := by omega
       have h2 : ¬ 0 = us := by omega
-      simp [encOpt, bind, Except.bind, pure, Except.pure, this, h2]
+      simp [encOpt, this, h2]
+  case succ.succ.succ.succ.succ.succ.zero =>
+    simp [roundMicroseconds, roundMicrosT, bind, Except.bind, pure, Except.pure, encOpt]
+  all_goals (
+    simp only [roundMicroseconds, roundMicrosT, bind, Except.bind, pure, Except.pure]
+    simp [PyVal.pow, PyVal.asInt?, pure, Except.pure]
+  )
+  · exact mid us 100000 (by decide)
+  · exact mid us 10000 (by decide)
+  · exact mid us 1000 (by decide)
+  · exact mid us 100 (by decide)
+  · exact mid us 10 (by decide)
+
+/-- closed form of the microsecond field after `validate` -/
+theorem roundedUs_eq (us p : Nat) :
+    roundedUs us p = if p = 0 then 0 else if p < 6 then us / 10 ^ (6 - p) * 10 ^ (6 - p) else us := by
+  unfold roundedUs roundMicrosT
+  by_cases h0 : p = 0
+  · simp [h0]; by_cases h : 0 = us <;> simp [h] <;> omega
   · by_cases h6 : p < 6
-    · have hp0 : ¬ ((p : Int) = 0) := by omega
-      have hlt : (p : Int) < 6 := by omega
-      have hsub : ((6 : Int) - (p : Int)).toNat = 6 - p := by omega
-      have hpow : ((10 : Int) ^ (6 - p)) = ((10 ^ (6 - p) : Nat) : Int) := by simp
-      have hne : ¬ ((10 : Int) ^ (6 - p) = 0) := by
-        have : (0 : Int) < 10 ^ (6 - p) := Int.pow_pos (by decide)
-        omega
-      simp only [PyVal.truthy_int, bne_iff_ne, ne_eq, hp0, not_false_eq_true, Bool.not_true, PyVal.lt_int, decide_true, hlt,
-        PyVal.sub_int, PyVal.pow, PyVal.asInt?, PyVal.floordiv, PyVal.mul, bind, Except.bind, pure, Except.pure, hsub]
-      simp only [h0, h6, if_false, if_true]
-      have hge : ¬ ((6 : Int) - (p : Int) < 0) := by omega
-      simp only [hge, if_false, hne, hpow, fdiv_natCast]
-      by_cases hx : us / 10 ^ (6 - p) * 10 ^ (6 - p) = us
-      · have hx' : ((us / 10 ^ (6 - p) : Nat) : Int) * ((10 ^ (6 - p) : Nat) : Int) = (us : Int) := by
-          exact_mod_cast hx
-        simp [hx, hx', encOpt, PyVal.pyEq, PyVal.asInt?]
-      · have hx' : ¬ ((us / 10 ^ (6 - p) : Nat) : Int) * ((10 ^ (6 - p) : Nat) : Int) = (us : Int) := by
-          intro h; apply hx; exact_mod_cast h
-        simp [hx, hx', encOpt, PyVal.pyEq, PyVal.asInt?]
-    · have hp6 : p = 6 := by omega
-      subst hp6
-      simp [encOpt, bind, Except.bind, pure, Except.pure]
+    · simp only [h0, h6, if_false, if_true]
+      by_cases h : us / 10 ^ (6 - p) * 10 ^ (6 - p) = us <;> simp [h]
+    · simp [h0, h6]
+
+/-- rounding never increases the microseconds (it truncates) -/
+theorem C07_round_le (us p : Nat) : roundedUs us p ≤ us := by
+  rw [roundedUs_eq]
+  split
+  · omega
+  · split
+    · exact Nat.div_mul_le_self us _
+    · omega
+
+/-- the rounded value is a multiple of `10^(6-precision)` -/
+theorem C07_round_multiple (us p : Nat) (hp : p ≤ 6) : 10 ^ (6 - p) ∣ roundedUs us p := by
+  rw [roundedUs_eq]
+  split
+  · exact Nat.dvd_zero _
+  · split
+    · exact Nat.dvd_mul_left _ _
+    · have : p = 6 := by omega
+      subst this; simp
+
+/-- less than one unit of the declared precision is lost -/
+theorem C07_round_error (us p : Nat) (hp : 0 < p) : us - roundedUs us p < 10 ^ (6 - p) := by
+  rw [roundedUs_eq]
+  have hpos : 0 < 10 ^ (6 - p) := Nat.pow_pos (by decide)
+  rw [if_neg (by omega)]
+  split
+  · generalize 10 ^ (6 - p) = r at hpos ⊢
+    have h1 := Nat.div_add_mod us r
+    have h2 := Nat.mod_lt us hpos
+    rw [Nat.mul_comm] at h1
+    omega
+  · omega
+
+/-- rounding is idempotent: a value read back and validated again is unchanged -/
+theorem C07_round_idem (us p : Nat) : roundedUs (roundedUs us p) p = roundedUs us p := by
+  rw [roundedUs_eq (roundedUs us p) p, roundedUs_eq us p]
+  split
+  · rfl
+  · split
+    · have hpos : 0 < 10 ^ (6 - p) := Nat.pow_pos (by decide)
+      rw [Nat.mul_div_cancel _ hpos]
+    · rfl
 
 end PonyVerif.Props.C07
